@@ -35,10 +35,18 @@ Matches == h' = Append(h, Ev)
 
 CbOutcome == [out |-> Ev.out, nilv |-> (Ev.out = "ok" /\ Ev.val = 0), cancel |-> Ev.cancel]
 
+\* a panicking callback: its event and the harness' "panic" event are appended in one step
+PanicStep ==
+  /\ More /\ l + 1 <= Len(H) /\ Ev.ev \in {"prep", "exec", "post"} /\ Ev.out = "panic" /\ H[l + 1].ev = "panic"
+  /\ ph = "running" /\ stack # <<>> /\ Top.t = "run" /\ CallbackPanic
+  /\ h' = h \o <<H[l], H[l + 1]>>
+  /\ l' = l + 2 /\ i' = i
+
 Observable ==
   /\ More
   /\ l' = l + 1 /\ i' = i
-  /\ \/ Ev.ev = "connect" /\ Connect /\ Matches
+  /\ IF Ev.ev \in {"prep", "exec", "post"} THEN Ev.out # "panic" ELSE TRUE
+  /\ \/ Ev.ev = "connect" /\ (Connect \/ ConnectInRun) /\ Matches
      \/ Ev.ev = "runcall" /\ StartRun /\ Matches
      \/ Ev.ev = "prep" /\ PrepCb(CbOutcome) /\ Matches
      \/ Ev.ev = "exec" /\ ExecCb(CbOutcome) /\ Matches
@@ -61,6 +69,6 @@ Accept == /\ Loaded /\ l > Len(H) /\ ph \in {"done", "setup"} /\ stack = <<>>
           /\ Fresh
 Skip   == /\ More /\ Fresh
 
-TNext == Observable \/ Silent \/ Accept \/ Skip
+TNext == Observable \/ PanicStep \/ Silent \/ Accept \/ Skip
 TSpec == TInit /\ [][TNext]_tvars
 =============================================================================
